@@ -101,17 +101,26 @@ def r2_boosted(ctx):
     prof = f.params[1]
     rc = astx.unique_def(f.node, "remaining_cands")
     ctx.check(rc is not None and astx.u(rc) == f"{prof}.candidates", f, rc or f.node, "c = number of candidates of the current profile", "", "remaining candidates are not profile.candidates")
-    u = astx.unique_def(f.node, "u")
-    ctx.check(u is not None and prog.resolve_expr(f.module, u.func) == "random.uniform" and [astx.u(a) for a in u.args] == ["0", "1"], f, u or f.node,
-              "u = random.uniform(0, 1)", astx.u(u) if u is not None else "", "the mixing variable is not uniform on [0,1]")
+    # the mixing draw, found by what it is (the one random.uniform call of the step), whether or not it is held in a local
+    uni = [c for c in astx.calls_in(f.node) if prog.resolve_expr(f.module, c.func) == "random.uniform"]
+    u = uni[0] if len(uni) == 1 else None
+    ust = astx.stmt_of(u, pm) if u is not None else None
+    UVAR = ust.targets[0].id if isinstance(ust, ast.Assign) and isinstance(ust.targets[0], ast.Name) and ust.value is u else None
+    ctx.check(u is not None and [astx.u(a) for a in u.args] == ["0", "1"], f, u or f.node,
+              "u = random.uniform(0, 1)", astx.u(u) if u is not None else "", "the mixing variable is not one uniform draw on [0,1]")
     # squares branch
     draws = [d for d in align.draws_in(prog, f) if d.kind == "numpy.random.choice"]
     if len(draws) != 1:
         ctx.violated(f, f.node, "BoostedRandomDictator: one squares-law draw", f"{len(draws)} numpy draws")
         return
     d = draws[0]
-    N = Normalizer(f.node, inline=True, int_atoms=lambda a: a.startswith("len("), rename=lambda e: "NC" if astx.u(e) in ("len(remaining_cands)", f"len({prof}.candidates)") else None,
-                   no_inline=["u"])
+    def _rn(e):
+        if astx.u(e) in ("len(remaining_cands)", f"len({prof}.candidates)"):
+            return "NC"
+        if e is u or (UVAR and astx.is_name(e, UVAR)):
+            return "u"
+        return None
+    N = Normalizer(f.node, inline=True, int_atoms=lambda a: a.startswith("len("), rename=_rn, no_inline=[UVAR] if UVAR else [])
     lits = literals(N.conj(astx.path_condition(f.node, d.call, pm)))
     want = literals(Normalizer(None, inline=False).conj([(ast.parse("NC == 1", mode="eval").body, False), (ast.parse("u <= 1 / (NC - 1)", mode="eval").body, True)]))
     ctx.check(lits == want, f, d.call, "squares branch iff c > 1 and u <= 1/(c-1)", str(sorted(lits)), f"squares branch is taken under {sorted(lits)}; documented {sorted(want)}")
